@@ -462,9 +462,33 @@ def run_fuzz(chk, asan_impl, ncases):
         jobs.append((d, fmt, "p" if ci % 5 == 0 else "n"))
 
     def one(job):
-        return vlib.sh([exe, job[0], job[2]], timeout=40, env=asan_env())
+        # two runs with differently filled heaps: equal observable results are required
+        e1 = asan_env(); e1["ASAN_OPTIONS"] += ":malloc_fill_byte=17:max_malloc_fill_size=67108864"
+        e2 = asan_env(); e2["ASAN_OPTIONS"] += ":malloc_fill_byte=238:max_malloc_fill_size=67108864"
+        r1 = vlib.sh([exe, job[0], job[2]], timeout=40, env=e1)
+        r2 = vlib.sh([exe, job[0], job[2]], timeout=40, env=e2)
+        return r1, r2
     with cf.ThreadPoolExecutor(vlib.NPROC) as ex:
-        res = list(ex.map(one, jobs))
+        res2 = list(ex.map(one, jobs))
+    res = [a for a, b in res2]
+    uninit_seen = {}
+    for (d, fmt, ped), (ra, rb) in zip(jobs, res2):
+        if ra[0] != 0 or rb[0] != 0 or san_report(ra[1]) or san_report(rb[1]):
+            continue
+        la = [l for l in ra[1].split("\n") if " sum=" in l]
+        lb = [l for l in rb[1].split("\n") if " sum=" in l]
+        for x, y in zip(la, lb):
+            if x != y:
+                call = x.split()[0]
+                key = "fuzz/uninitialised/%s" % call
+                if key not in uninit_seen:
+                    uninit_seen[key] = True
+                    files = {fn: open(os.path.join(d, fn), "rb").read()[:4000].hex() for fn in sorted(os.listdir(d))}
+                    chk.violation(key, "the result of %s on field %s depends on uninitialised memory (two runs with differently filled heaps: '%s' vs '%s')" % (
+                        call, x.split()[1], x, y),
+                        {"kind": "impl-vs-spec", "files_hex": files, "mode": ped, "run_fill_0x11": x, "run_fill_0xEE": y,
+                         "how": "write files_hex into a directory; harness/C05/fuzz <dir> under ASAN_OPTIONS=malloc_fill_byte=17 / 238"})
+                break
     calls = 0
     errkinds = {}
     accepted = 0
@@ -501,6 +525,12 @@ def run_fuzz(chk, asan_impl, ncases):
             problem = ("sanitizer", rep)
         elif rc == 124:
             problem = ("hang", "no answer within 40 s")
+        elif "FD-LEAK" in out:
+            import re as _re2
+            # which calls touched a data file: name the class by the last size/eof style call is not
+            # possible from outside; classify by encoding + leak count instead
+            enc = _re2.search(rb"/ENCODING (\w+)", fmt)
+            problem = ("descriptor-leak-%s" % (enc.group(1).decode("latin1") if enc else "none"), out[out.index("FD-LEAK"):][:200])
         elif rc != 0:
             problem = ("exit-%d" % rc, out[-800:])
         if problem:
